@@ -35,3 +35,22 @@ if '<!-- seed-table -->' in text:
   text = re.sub(r'<!-- seed-table -->.*?<!-- /seed-table -->', '<!-- seed-table -->\n' + out + '\n<!-- /seed-table -->', text, flags=re.S)
   open(path, 'w').write(text)
 print(out)
+
+# ---- section 11.3: recorded findings and repaired defects, from known_findings.json
+k = json.load(open(os.path.join(HERE, 'known_findings.json')))
+rows = ['| property | key | what fails | why recorded, not repaired |', '|---|---|---|---|']
+for f in k['findings']:
+  rows.append('| %s | `%s` | %s | %s |' % (f['property'], f['key'], (f.get('what') or '').replace('|', '/').replace('\n', ' ')[:420],
+                                        (f.get('why_not_fixed') or f.get('why') or '').replace('|', '/').replace('\n', ' ')[:300]))
+ftab = '\n'.join(rows)
+rows = ['| property | commit | what failed before the repair |', '|---|---|---|']
+for f in k['fixed']:
+  m = re.match(r'fixed: property=(C\d\d) (\w+) (.*)', f, re.S)
+  if m:
+    rows.append('| %s | %s | %s |' % (m.group(1), m.group(2), m.group(3).replace('|', '/').replace('\n', ' ')[:330]))
+xtab = '\n'.join(rows)
+text = open(path).read()
+for tag, body in (('findings-table', ftab), ('fixed-table', xtab)):
+  if '<!-- %s -->' % tag in text:
+    text = re.sub(r'<!-- %s -->.*?<!-- /%s -->' % (tag, tag), lambda _: '<!-- %s -->\n%s\n<!-- /%s -->' % (tag, body, tag), text, flags=re.S)
+open(path, 'w').write(text)
